@@ -105,6 +105,7 @@ type mRow struct {
 	pos      int // 1-based position once attached
 	handle   int // index in World.handles (non-separator rows) or World.seps
 	pending  []error
+	zero     bool // created as new(tabular.Row), not by a constructor
 	owner    *propOwner
 	header   bool
 }
@@ -155,6 +156,7 @@ type World struct {
 	simPanicked      bool            // a scripted callback panic cut the current step short
 	simItems         []*simBase      // mutable items created so far
 	Template         *tabular.Cell   // a cell value prepared outside (shared BY VALUE between tables)
+	TemplateErrs     [][]error       // error lists prepared outside (the same slices are handed to several tables)
 	Other            *tabular.ATable // a second table some rows were also added to (C09 only)
 
 	// callbacks (C13)
@@ -247,6 +249,18 @@ var tmplKeys = []interface{}{tmplKey{1}, tmplKey{2}, tmplKey{3}}
 
 // NewTemplateCell builds a cell value with three properties, rendered-like
 // (several links in its chain).  Copies of it go into tables of different tasks.
+// NewTemplateErrs builds the error lists that several tables are handed: one
+// longer than a container's starting capacity and free of nil entries, one
+// with nil entries between the errors.
+func NewTemplateErrs() [][]error {
+	full := make([]error, 12, 16) // (with room to spare: whoever keeps this slice and appends to it writes into memory it shares)
+	for i := range full {
+		full[i] = fmt.Errorf("prepared error %d", i)
+	}
+	holey := []error{fmt.Errorf("prepared error a"), nil, fmt.Errorf("prepared error b"), nil, nil, fmt.Errorf("prepared error c"), fmt.Errorf("prepared error d")}
+	return [][]error{full, holey}
+}
+
 func NewTemplateCell() *tabular.Cell {
 	c := tabular.NewCell("tmpl")
 	for i, k := range tmplKeys {
@@ -399,15 +413,20 @@ func (w *World) Do(st *Step) bool {
 		w.expectAddTime(mr, false)
 	case "newRow":
 		var r *tabular.Row
-		switch pick(3, st.A) {
+		switch pick(4, st.A) {
 		case 0:
 			r = tabular.NewRow()
 		case 1:
 			r = tabular.NewRowWithCapacity(pick(12, st.B))
+		case 3:
+			// the zero value of the exported type (error histories only): whether it
+			// accepts cells is not stated, but a cell it refuses is a reported misuse
+			r = new(tabular.Row)
+			w.probe("zero_value_row")
 		default:
 			r = w.Tab.NewRowSizedFor()
 		}
-		w.handles = append(w.handles, &mRow{real: r, handle: len(w.handles)})
+		w.handles = append(w.handles, &mRow{real: r, handle: len(w.handles), zero: pick(4, st.A) == 3})
 	case "rowAdd":
 		i := pick(len(w.handles), st.A)
 		if i < 0 || len(st.Items) == 0 {
@@ -418,6 +437,23 @@ func (w *World) Do(st *Step) bool {
 			return true
 		}
 		vals, cells := w.newCells(st.Items[:1])
+		if h.zero {
+			before := len(h.real.Cells())
+			h.real.Add(tabular.NewCell(vals[0]))
+			if len(h.real.Cells()) == before {
+				// refused: then it is misuse, and misuse is reported (through the row
+				// until it is attached, by the table afterwards)
+				w.expect(misuseMarker, h)
+				w.Faults["misuse_zero_row_add"]++
+				return true
+			}
+			h.zero = false // it accepts cells: a row like any other
+			h.cells = append(h.cells, cells[0])
+			if h.attached {
+				w.syncColumns()
+			}
+			return true
+		}
 		w.expectRowAdd(h, cells[0])
 		h.real.Add(tabular.NewCell(vals[0]))
 		h.cells = append(h.cells, cells[0])
@@ -511,6 +547,14 @@ func (w *World) Do(st *Step) bool {
 			w.Tab.RegisterPropertyCallback(p, tabular.CB_AT_RENDER, tabular.CB_ON_ITSELF, quietCallback{})
 		}
 		w.probe("template_cell_added_by_value")
+	case "addTemplateErrs":
+		// the caller hands the table a list of errors prepared elsewhere — the very
+		// same slice that other tables are handed too (it stays the caller's)
+		if len(w.TemplateErrs) == 0 {
+			return true
+		}
+		w.Core.AddErrorList(w.TemplateErrs[pick(len(w.TemplateErrs), st.A)])
+		w.probe("shared_error_list_added")
 	case "attachOther":
 		// the same *Row is also added to a SECOND table (nothing forbids it).  The
 		// model does not follow what that means for either table; only C09 uses
